@@ -127,6 +127,8 @@ def drive_wrapper(data, schedule, mode='read', expected=None, allowed=None,
         w = F.InspectWrapper(src, expected_format=expected,
                              allowed_formats=allowed)
         try:
+            if sample:
+                samples.append(wrapper_outcome(w))      # before any read
             for sz in chunking.sizes_of(schedule, len(data)):
                 got.append(w.read(sz))
                 if sample:
@@ -141,6 +143,8 @@ def drive_wrapper(data, schedule, mode='read', expected=None, allowed=None,
                              expected_format=expected,
                              allowed_formats=allowed)
         try:
+            if sample:
+                samples.append(wrapper_outcome(w))      # before any chunk
             for c in w:
                 got.append(c)
                 if sample:
